@@ -392,6 +392,24 @@ def panic_key(p):
     return "panic:%s:%s" % (what, p.get("kind", "-"))
 
 
+def desc_stage(rep, ok, thms):
+    """Extension round 2: the descriptor-level statements (Properties/C07Desc.v: the lifted policy against
+    Spend.verify_wsh with all its limits) are gated the way proof_gates gates EXTRA_PROPERTY_FILES."""
+    if not ok:
+        return ok, thms
+    t2, b2, pr2, _ = vlib.check_property_file("C07Desc")
+    if pr2:
+        rep.violation("property-file", "; ".join(pr2),
+                      {"property": "C07", "broken_tie": "Properties/C07Desc.v", "problems": pr2}, found_input=False)
+        ok = False
+    thms = thms + t2
+    rep.coverage["theorems"] = thms
+    rep.coverage["print_assumptions"] = list(rep.coverage.get("print_assumptions", [])) + \
+        [("closed" if b["closed"] else ",".join(b["axioms"])) for b in b2]
+    rep.coverage["descriptor_level_theorems"] = t2
+    return ok, thms
+
+
 def run(rep, tier, seed, replay):
     hbin = vlib.build_harness()
     build_driver()
@@ -414,6 +432,7 @@ def run(rep, tier, seed, replay):
                                  "rule": "replay of one case", "samples": r["samples"] or [rp.get("ms", "-")], "histogram": r["hist"]})
             return
     ok, thms = vlib.proof_gates(rep, "C07")
+    ok, thms = desc_stage(rep, ok, thms)
     with concurrent.futures.ThreadPoolExecutor(max_workers=NPARTS) as ex:
         futs = [ex.submit(run_part, hbin, seed, n, part, NPARTS, cap, "s%d" % seed) for part in range(NPARTS)]
         results = [f.result() for f in futs]
